@@ -11,6 +11,71 @@ import (
 
 func init() {
 	env.Register("C08_OneMessage", C08_OneMessage)
+	env.Register("C08_FutureMessage", C08_FutureMessage)
+}
+
+// C08_FutureMessage: a symbolic PREPREPARE / PREPARE / COMMIT arrives while the node is at height 1; the node
+// is then synced to a symbolic later height (what happens with cached future messages when their term
+// starts). Any influence observed while entering that height must satisfy the same predicate, judged
+// against the new height.
+func C08_FutureMessage() {
+	kind := env.Param("kind") // 0 PP, 1 P, 2 C
+	me := env.Choice("me", 4)
+	wd := newWorld(me, equalWeights(4))
+	n, ref := wd.n, wd.ref
+	myId := byte(me + 1)
+	hdr := newSymRef("m")
+	snd := newSymSender(wd.reg, "s", uint64(hdr.height), hdr.raw)
+	var raw *interfaces.ConsensusRawMessage
+	shareOK := func() bool { return true }
+	switch kind {
+	case 0:
+		c := (&protocol.PreprepareContentBuilder{SignedHeader: hdr.b, Sender: snd.b}).Build()
+		raw = interfaces.NewPreprepareMessage(c, symBlock("blk")).ToConsensusRawMessage()
+	case 1:
+		c := (&protocol.PrepareContentBuilder{SignedHeader: hdr.b, Sender: snd.b}).Build()
+		raw = interfaces.NewPrepareMessage(c).ToConsensusRawMessage()
+	case 2:
+		// the seed of the later term is derived from the (empty) proof handed over by the sync
+		seedBytes := randomseed.RandomSeedToBytes(wd.net.seed)
+		share, _ := symSig(wd.reg, stub.KindSeed, []byte{snd.id}, uint64(hdr.height), seedBytes, "share")
+		shareOK = func() bool { return wd.reg.Valid(stub.KindSeed, []byte{snd.id}, uint64(hdr.height), seedBytes, share) }
+		c := (&protocol.CommitContentBuilder{SignedHeader: hdr.b, Sender: snd.b, Share: share}).Build()
+		raw = interfaces.NewCommitMessage(c).ToConsensusRawMessage()
+	}
+	s0 := n.snap()
+	n.deliver(raw)
+	if n.influenced(s0) {
+		return // current-height behaviour is C08_OneMessage's subject
+	}
+	// sync to a later height: the term of that height starts and drains the future cache
+	b := env.NondetU64("sync_h")
+	env.Assume(b >= 1 && b < 1<<62)
+	s1 := n.snap()
+	wd.sync(&stub.Block{H: primitives.BlockHeight(b)})
+	env.Assert("C08.future.synced", uint64(n.m.state.Height()) == b+1)
+	t := n.snap()
+	infl := t.events != s1.events || t.out != s1.out || t.commits != s1.commits
+	if !infl {
+		env.Reach("C08.future.no_influence")
+		return
+	}
+	env.Reach("C08.future.influence")
+	H := primitives.BlockHeight(b + 1)
+	K := []string{"PP", "P", "C"}[kind]
+	env.Assert("C08."+K+".sig", snd.isValid())
+	env.Assert("C08."+K+".member", ref.member(snd.id))
+	env.Assert("C08."+K+".not_own", snd.id != myId)
+	env.Assert("C08."+K+".instance", hdr.instance == vInstance)
+	env.Assert("C08."+K+".height", hdr.height == H)
+	switch kind {
+	case 0:
+		env.Assert("C08.PP.leader", snd.id == ref.leader(hdr.view))
+	case 1:
+		env.Assert("C08.P.not_leader", snd.id != ref.leader(hdr.view))
+	case 2:
+		env.Assert("C08.C.share", shareOK())
+	}
 }
 
 type vWorld struct {
@@ -147,7 +212,7 @@ func C08_OneMessage() {
 	}
 	env.Reach("C08.influence")
 	K := []string{"PP", "P", "C", "VC"}[kind]
-	env.Assert("C08."+K+".sig", snd.valid)
+	env.Assert("C08."+K+".sig", snd.isValid())
 	env.Assert("C08."+K+".member", ref.member(snd.id))
 	env.Assert("C08."+K+".not_own", snd.id != myId)
 	env.Assert("C08."+K+".instance", hdr.instance == vInstance)
